@@ -21,6 +21,8 @@ func init() {
 		pd.Explanation += " " + explain
 	}
 	wrap("C01", c01Extra, "R9 (added): the wildcard next-closer check in Resolver.answer sees only authority records already filtered to the validated signer zone (resp.Ns = FilterRRsToZone(resp.Ns, signer) precedes it on every path).")
+	wrap("C14", c14Extra, "R5 (added): the raw RSA verifier compares the recovered encoding at full modulus width — both ConstantTimeCompare operands have length = the modulus size by construction (a fresh make(size) buffer or FillBytes into one), never the zero-stripped big.Int bytes.")
+	wrap("C02", c02Extra, "R9 (added): the aggressive-NSEC closest encloser is derived from BOTH names of the covering record (shared-suffix count with owner and with next, the larger of the two), as RFC 8198/4035 require.")
 	wrap("C13", c13Extra, "R8 (added): a stored failure is turned into a hit (failureEntry.hit) only behind now.Before(<that entry>.retryAfter) — on the Msg and the wire lookup alike — so suppression ends with the backoff.")
 	wrap("C09", c09Extra, "R10 (added): tombstone precedence is unconditional — in the sweep over the loaded state and in the merge loops, the only conditions that may skip a tombstone check are the entry's own Revoked/Removed marker state.")
 	wrap("C12", c12Extra, "R6 (added): the work ledger follows every resolveState — each construction of a resolveState sets work from the current state's work, the request context's ledger, or the caller-supplied ledger.")
@@ -268,5 +270,110 @@ func c09Extra(c *Ctx) {
 	}
 	if n == 0 {
 		c.unresolved("C09-R10", "AutoTA tombstone sweep", "no tombstones[dnskeyMaterialFP(entry key)] lookup over a ranged state map found")
+	}
+}
+
+// staticLenIs: the slice described by e has, by construction, the length
+// described by want (a canonical Expr string): a make([]T, want), a FillBytes
+// into such a buffer, or an unsliced alias of one.
+func staticLenIs(e *Expr, want string, depth int) bool {
+	e = strip(e)
+	if e == nil || depth > 6 {
+		return false
+	}
+	switch e.K {
+	case EMake:
+		if ms, ok := e.V.(*ssa.MakeSlice); ok {
+			return Desc(ms.Len).String() == want
+		}
+	case ECall:
+		if e.Fn != nil && e.Fn.Name() == "FillBytes" && len(e.Args) == 2 {
+			return staticLenIs(e.Args[1], want, depth+1)
+		}
+	case EPhi, EAlloc:
+		if len(e.Args) == 0 {
+			return false
+		}
+		for _, a := range e.Args {
+			if !staticLenIs(a, want, depth+1) {
+				return false
+			}
+		}
+		return true
+	}
+	return false
+}
+
+func c14Extra(c *Ctx) {
+	c.Doc("C14-R5", "rsaVerifyPKCS1v15: both operands of the deciding subtle.ConstantTimeCompare have static length size=(n.BitLen()+7)/8 (fresh make(size) / FillBytes into one); comparing the zero-stripped m.Bytes() against a suffix skips the 00 01 FF… frame")
+	fn := c.fn("C14-R5", "middleware/resolver/dnssec.rsaVerifyPKCS1v15")
+	ctc := c.fobj("C14-R5", "crypto/subtle.ConstantTimeCompare")
+	if fn == nil || ctc == nil {
+		return
+	}
+	sites := instrsWhere(fn, isPlainCallTo(ctc))
+	if len(sites) == 0 {
+		c.unresolved("C14-R5", "rsaVerifyPKCS1v15", "no ConstantTimeCompare call")
+		return
+	}
+	// the modulus size: the value len(sig) is compared with
+	var sizeStr string
+	for _, b := range fn.Blocks {
+		for _, in := range b.Instrs {
+			if bo, ok := in.(*ssa.BinOp); ok {
+				e := Desc(bo)
+				if e.K == EBin && e.X != nil && e.X.K == ECall && e.X.Method == "builtin.len" && len(e.X.Args) == 1 && e.X.Args[0].K == EParam && e.X.Args[0].Name == "sig" {
+					sizeStr = e.Y.String()
+				}
+			}
+		}
+	}
+	if sizeStr == "" {
+		c.unresolved("C14-R5", "rsaVerifyPKCS1v15", "modulus size (the value len(sig) is compared with) not found")
+		return
+	}
+	for _, in := range sites {
+		for i := 0; i < 2; i++ {
+			key := fmt.Sprintf("C14-R5|rsaVerifyPKCS1v15|compare operand %d full width", i)
+			if staticLenIs(Desc(callArg(in, i)), sizeStr, 0) {
+				c.ok("C14-R5", key, instrPos(in), "operand has length size by construction")
+			} else {
+				c.violation("C14-R5", key, instrPos(in), "the encoded message is not compared at full modulus width: operand "+trunc(Desc(callArg(in, i)).String(), 120)+" is not a size-long buffer, so leading octets of the EMSA-PKCS1-v1_5 frame go unchecked")
+			}
+		}
+	}
+}
+
+func c02Extra(c *Ctx) {
+	c.Doc("C02-R9", "closestEncloserFromAggressiveNSEC: the label count that selects the encloser originates from aggressiveSharedSuffixLabels(qname, cover.owner) AND aggressiveSharedSuffixLabels(qname, cover.next) (their maximum): a name covered only through the NSEC's next name (wildcard under an empty non-terminal) is not denied")
+	fn := c.fn("C02-R9", "middleware/resolver/dnssec.closestEncloserFromAggressiveNSEC")
+	shared := c.fobj("C02-R9", "middleware/resolver/dnssec.aggressiveSharedSuffixLabels")
+	owner := c.field("C02-R9", "middleware/resolver/dnssec.aggressiveNSECEntry.owner")
+	next := c.field("C02-R9", "middleware/resolver/dnssec.aggressiveNSECEntry.next")
+	suffix := c.fobj("C02-R9", "middleware/resolver/dnssec.aggressiveCanonicalName.suffix")
+	if fn == nil || shared == nil || owner == nil || next == nil || suffix == nil {
+		return
+	}
+	for _, in := range instrsWhere(fn, isPlainCallTo(suffix)) {
+		hasOwner, hasNext := false, false
+		for _, l := range Origins(Desc(callArg(in, 1)), nil) {
+			Contains(func(x *Expr) bool {
+				if CallTo(shared)(x) && x.K == ECall && len(x.Args) == 2 {
+					if FieldIs(owner)(x.Args[1]) {
+						hasOwner = true
+					}
+					if FieldIs(next)(x.Args[1]) {
+						hasNext = true
+					}
+				}
+				return false
+			})(l)
+		}
+		key := "C02-R9|closestEncloserFromAggressiveNSEC|encloser from owner and next"
+		if hasOwner && hasNext {
+			c.ok("C02-R9", key, instrPos(in), "shared-suffix count drawn from both cover.owner and cover.next")
+		} else {
+			c.violation("C02-R9", key, instrPos(in), fmt.Sprintf("the closest encloser ignores one name of the covering NSEC (owner used=%v, next used=%v)", hasOwner, hasNext))
+		}
 	}
 }
